@@ -6,7 +6,7 @@ import msuite
 PID = 'C16'
 TAGS = ['cbegin', 'collected', 'fbegin', 'got', 'fend', 'fabort', 'tfin', 'ret', 'caught', 'log']
 RULE = ('collect(..) / `async for .. in first(.., count=k)` over 0-5 activities, each a few sleeps (durations 0, 1/2, 1, 2, 3 with '
-        'ties), log statements after every sleep, sometimes inside `async with lock` or followed by `await queue` (a message may or may not come), sometimes a nested scope with a child that outlasts its body, and a result or a failure (KeyError / IndexError / a privileged AssertionError); '
+        'ties), log statements after every sleep, sometimes inside `async with lock` or followed by `await queue` (a message may or may not come), sometimes waiting for a task of somebody else that a third party cancels (the activity then fails with TaskCancelled), sometimes a nested scope with a child that outlasts its body, and a result or a failure (KeyError / IndexError / a privileged AssertionError); '
         'count none, 0..n+1; consumer bodies that log, sleep (slow consumer) or break after m results; the caller runs as a root '
         'activity, inside an until()-scope with a deadline, or in a child task that is cancelled at a chosen time; several '
         'callers side by side; every program ends with a long sleep so that code of aborted activities would be seen. '
@@ -16,6 +16,7 @@ DUR = [0, 0, F(1, 2), 1, 1, 2, 3]
 
 
 NESTED = [0]
+JOB = [False]
 
 
 def activity(rng, i, fail_p):
@@ -39,6 +40,9 @@ def activity(rng, i, fail_p):
                      ['spawn', 500 + k, 500 + k, None, None, False,
                       ['prog', ['sleep', rng.choice([1, 2, 3])], ['log', 300 + 10 * i], ['sleep', rng.choice([1, 2])], ['log', 301 + 10 * i]]],
                      ['sleep', rng.choice([0, F(1, 2)])]])
+    if JOB[0] and rng.random() < 0.3:
+        # an activity that forwards somebody else's task: it fails with TaskCancelled when a third party cancels that task
+        prog.append(['awaittask', 900])
     r = rng.random()
     if r < fail_p:
         prog.append(['raise', rng.choice([2, 2, 4, 7])])
@@ -90,7 +94,12 @@ def caller(rng, i, ntask):
 def family(rng):
     ntask = [0]
     NESTED[0] = 0
+    JOB[0] = rng.random() < 0.25
     roots = [caller(rng, i, ntask) for i in range(rng.choice([1, 1, 1, 2, 3]))]
+    if JOB[0]:
+        # (first root: the job exists before any caller runs) a long job owned by a scope of its own, cancelled or finished
+        roots = [['prog', ['scope', 90, ['none'], ['spawn', 90, 900, None, None, False, ['prog', ['sleep', rng.choice([2, 4, 30])], ['ret', 5]]],
+                           ['sleep', rng.choice([1, 2, F(5, 2), 3])], ['cancel', 900, 6]]]] + roots
     if rng.random() < 0.4:
         roots.append(['prog', ['sleep', rng.choice([F(1, 2), 1, 2, 4])], ['qput', 0, 1]] + ([['qput', 0, 2]] if rng.random() < 0.5 else []))
     return ['scenario', ['debug', 1], ['start', rng.choice([0, 0, 1])], ['flags', 1], ['locks', 1], ['queues', 1], ['roots'] + roots]
@@ -104,7 +113,7 @@ def nontrivial(impl):
 
 def run(tier, seed, drv):
     return msuite.standard_run(PID, 'C16', TAGS, tier, seed, drv, [family], nontrivial=nontrivial, rule=RULE,
-                               n_quick=250, n_thorough=6000)
+                               n_quick=250, n_thorough=6000, optimized=100 if tier == 'quick' else 1000)
 
 
 def replay(data, drv):
